@@ -575,6 +575,9 @@ class Program:
         """unique function whose name ends with the suffix"""
         hits = [n for n in self.funcs if n == suffix or n.endswith("::" + suffix) or suffix.endswith("::" + n)]
         if len(hits) != 1:
+            alt = self.resolve_call(suffix) if not hits else None
+            if alt is not None:
+                return alt
             raise Unsupported("function %r: %d candidates %s" % (suffix, len(hits), hits[:5]))
         return hits[0]
 
